@@ -344,6 +344,13 @@ def inheritance_trees(names, rng, enums8, s_static=None):
         p = names.new("Ip")
         out.append(packet(p, [scalar("k", 8), array("v", width=8, size=2), typedef("s", s_static["id"])]))
         out.append(packet(names.new("Ic"), [], parent_id=p, constraints=[constraint("k", 2)]))
+    # 5e. declarations without any field: decoding succeeds without consuming anything
+    emp = names.new("Emp")
+    out.append(packet(emp, []))
+    out.append(packet(names.new("Emc"), [], parent_id=emp))
+    ems = names.new("Ems")
+    out.append(struct(ems, []))
+    out.append(packet(names.new("Emu"), [scalar("a", 8), typedef("m", ems), scalar("b", 8)]))
     # 6. parent without payload, child without fields
     p = names.new("Ip")
     out.append(packet(p, [scalar("a", 8), scalar("b", 8)]))
